@@ -19,6 +19,13 @@ def main(argv):
         sys.path.append(deps)  # appended: never shadows /venv's own packages
     warnings.simplefilter("ignore")
     logging.disable(logging.CRITICAL)
+    cov = None
+    if os.environ.get("VERIF_COV_DIR"):
+        # development aid only (never set by a registered command): which statements of the library do the workloads execute?
+        import coverage
+        cov = coverage.Coverage(data_file=os.path.join(os.environ["VERIF_COV_DIR"], f".coverage.{pid}"), data_suffix=True,
+                                include=[os.path.join(os.environ.get("VERIF_REPO", "/repo"), "src", "*")], omit=["*/tests/*"])
+        cov.start()
     mod = importlib.import_module(f"checks.{pid.lower()}")
     cases = json.loads(Path(inp).read_text())
     scratch = Path(os.environ["VERIF_SHARD_SCRATCH"])
@@ -44,6 +51,9 @@ def main(argv):
             fo.write(json.dumps(r, default=str) + "\n")
             fo.flush()
     shutil.rmtree(scratch, ignore_errors=True)
+    if cov is not None:
+        cov.stop()
+        cov.save()
     return 0
 
 
